@@ -420,6 +420,30 @@ func Check(c Case) *kit.Violation {
 			return kit.Failf("PARSE Accept=%q: range %d parsed as %+v, want {%s %v}", lines, i, specs[i], r.Value(), wq)
 		}
 	}
+	// a header of several lines, then a header that is only its first line: each is answered for what it says, whatever
+	// was negotiated before for a header that starts alike (r8)
+	cut := 0
+	for i, r := range c.Ranges {
+		if r.Blank > 0 || r.Empty > 0 {
+			cut = 0
+			break
+		}
+		if i > 0 && r.NL && cut == 0 {
+			cut = i
+		}
+	}
+	if cut > 0 {
+		first := Case{Ranges: c.Ranges[:cut], Offers: c.Offers, Default: c.Default}
+		want1, _ := Expect(first)
+		lines1 := Lines(first.Ranges)
+		got1, v := negotiateType(lines1, c.Offers, c.Default)
+		if v != nil {
+			return v
+		}
+		if got1 != want1 {
+			return kit.Failf("SELECTION-FIRST-LINE-ALONE Accept=%q offers=%q default=%q: got %q, want %q (asked right after the %d-line header %q, which starts with the same line)", lines1, c.Offers, c.Default, got1, want1, len(lines), lines)
+		}
+	}
 	// what ParseAccept returned is the caller's: a caller that sorts it or strikes ranges out changes no later answer (r7)
 	if v := scribbleSpecs("Accept", lines, specs); v != nil {
 		return v
